@@ -23,7 +23,8 @@ def main(argv):
     mod = importlib.import_module(modname)
     args = json.load(open(path))
     if idx >= 0:
-        params = mod.shards(tier)[idx]["params"]
+        from vf.common import shard_spec
+        params = shard_spec(mod, tier, idx)["params"]
         fn = mod.make_harness(params)
     else:
         params = None
